@@ -1,4 +1,61 @@
-// engine K harnesses for module hook 'boolean_array' (included under cfg(kani) by /repo)
+// engine K — ff/boolean_array.rs (properties C08 / C09: bit arrays keep their unused padding bits zero, so that
+// equal values compare equal and serialise identically; integer <-> bit-array conversion is little endian)
+//
+// Values are read through `as_raw_slice()` (the storage bytes), not through `as_u128()` / `==`, which go through
+// bitvec's domain iterators and cost CBMC minutes.
+use super::*;
+use crate::ff::U128Conversions;
+
+fn raw_u128(bytes: &[u8]) -> u128 {
+    let mut v = 0u128;
+    let mut k = 0;
+    while k < bytes.len() {
+        v |= u128::from(bytes[k]) << (8 * k);
+        k += 1;
+    }
+    v
+}
+
+/// `truncate_from(v)` stores exactly the low BITS bits of v, little endian, and nothing in the padding bits
+macro_rules! ba_truncate {
+    ($name:ident, $ba:ty, $bits:expr, $unwind:expr) => {
+        #[kani::proof]
+        #[kani::unwind($unwind)]
+        fn $name() {
+            let v: u128 = kani::any();
+            kani::cover!(v >> $bits != 0);
+            let x = <$ba>::truncate_from(v);
+            assert!(raw_u128(x.as_raw_slice()) == v & ((1u128 << $bits) - 1));
+            assert!(x.as_raw_slice().len() == ($bits + 7) / 8);
+        }
+    };
+}
+ba_truncate!(c09_ba3_truncate_le, BA3, 3, 6);
+ba_truncate!(c09_ba8_truncate_le, BA8, 8, 10);
+ba_truncate!(c09_ba20_truncate_le, BA20, 20, 23);
+ba_truncate!(c09_ba32_truncate_le, BA32, 32, 35);
+ba_truncate!(c09_ba64_truncate_le, BA64, 64, 67);
+
+/// the bitwise complement of a sub-byte array is taken within BITS bits: the padding bits stay zero
+/// (otherwise !x would not compare equal to the same value built any other way, and would not deserialize)
+macro_rules! ba_not {
+    ($name:ident, $ba:ty, $bits:expr, $unwind:expr) => {
+        #[kani::proof]
+        #[kani::unwind($unwind)]
+        fn $name() {
+            let v: u128 = kani::any();
+            kani::assume(v >> $bits == 0);
+            kani::cover!(v == 0);
+            let x = <$ba>::truncate_from(v);
+            let y = !x;
+            let mask = (1u128 << $bits) - 1;
+            assert!(raw_u128(y.as_raw_slice()) == !v & mask, "complement must stay inside BITS bits (zero padding)");
+        }
+    };
+}
+ba_not!(c08_ba3_not_padding, BA3, 3, 6);
+ba_not!(c08_ba20_not_padding, BA20, 20, 23);
+ba_not!(c08_ba8_not, BA8, 8, 10);
 
 #[cfg(test)]
 include!(concat!(env!("IPA_VERIF_DIR"), "/.build/playback/boolean_array.rs"));
